@@ -35,6 +35,11 @@ def cases(shard, tier):
                 for vrl in (32, 8192, 16384):
                     yield {'vrl': vrl, 'recs': [['E3', 30, 0]], 'ocs': 2 ** 16, 'sul': {'seq': seq, 'setid': 'S' * n},
                            'label': True}
+        # identifiers with blanks at either end or inside, lower case, punctuation (the field is the configured text
+        # left-justified in 60 characters, whatever it contains)
+        for setid in ('WELL 7 STORAGE SET ', ' LEADING', 'TWO  BLANKS  ', ' ', 'X' * 58 + '  ', 'x' * 59 + ' ', 'a.b/c:d', '-', '0042'):
+            for vrl in (32, 8192):
+                yield {'vrl': vrl, 'recs': [['E3', 30, 0]], 'ocs': 2 ** 16, 'sul': {'seq': 1, 'setid': setid}, 'label': True}
 
 
 def run_case(case):
